@@ -7,6 +7,8 @@ stream (recompute every CRC and compare with the header) is `receiverAccepts`; t
 real Sink and Restore do exactly this is C10 (`install_exact`, `restore_exact`).
 -/
 import RqModel.Model.SnapVerify
+import RqModel.Props.C10
+import RqModel.Gen.SnapVerify
 namespace C12
 open RqModel.SnapStream RqModel.SnapVerify
 
@@ -75,10 +77,168 @@ theorem good_verdict_means_match (E : XExt) (s : Store) (hv : s.verdict = none)
   have := h.2 f hf
   simpa [fileCrcOk, hs] using this
 
-/-! ### corruption that arises later -/
+/-! ### from "the bytes changed" to "the check fails" (the CRC law) -/
 
-/-- the CRC caveat, in the form needed here: equal checksums mean equal bytes -/
+/-- the CRC caveat: equal checksums mean equal bytes -/
 def NoCollision (E : XExt) : Prop := ∀ x y : Bytes, E.crc x = E.crc y → x = y
+
+/-- **corrupted_data_fails_check.** If a data file's bytes differ from the content its sidecar
+was computed from, the store-wide check fails (no CRC collision). -/
+theorem corrupted_data_fails_check (E : XExt) (hc : NoCollision E) (fs : List DataFile) (f : DataFile)
+    (hf : f ∈ fs) (n : Nat) (hs : f.side = .crc n) (orig : Bytes) (ho : E.crc orig = n)
+    (hne : f.content ≠ orig) : checkOk E fs = false := by
+  have hbad : fileCrcOk E f = false := by
+    simp only [fileCrcOk, hs]
+    have : E.crc f.content ≠ n := fun h => hne (hc _ _ (by rw [h, ho]))
+    simpa using this
+  cases hk : checkOk E fs with
+  | false => rfl
+  | true =>
+    simp only [checkOk, Bool.and_eq_true, List.all_eq_true] at hk
+    have := hk.2 f hf
+    rw [hbad] at this; cases this
+
+/-- **corrupted_sidecar_fails_check.** If a sidecar is unreadable, or records a checksum other
+than that of the (intact) data file, the store-wide check fails. -/
+theorem corrupted_sidecar_fails_check (E : XExt) (fs : List DataFile) (f : DataFile) (hf : f ∈ fs)
+    (h : f.side = .bad ∨ ∃ n, f.side = .crc n ∧ n ≠ E.crc f.content) : checkOk E fs = false := by
+  have hbad : fileCrcOk E f = false := by
+    rcases h with h | ⟨n, h, hn⟩
+    · simp [fileCrcOk, h]
+    · simp only [fileCrcOk, h]
+      have : E.crc f.content ≠ n := fun e => hn e.symm
+      simpa using this
+  cases hk : checkOk E fs with
+  | false => rfl
+  | true =>
+    simp only [checkOk, Bool.and_eq_true, List.all_eq_true] at hk
+    have := hk.2 f hf
+    rw [hbad] at this; cases this
+
+/-- **corrupt_data_at_start_detected.** The two together with `corrupt_at_open_detected`: a
+changed byte in any data file, present when the store is created, makes whichever consumer
+runs first refuse. -/
+theorem corrupt_data_at_start_detected (E : XExt) (hc : NoCollision E) (s : Store) (hv : s.verdict = none)
+    (f : DataFile) (hf : f ∈ s.files) (n : Nat) (hs : f.side = .crc n) (orig : Bytes) (ho : E.crc orig = n)
+    (hne : f.content ≠ orig) (c : Consumer) :
+    (consume E s c).2 = false ∧ (consume E s c).1.files = s.files :=
+  let h := corrupt_at_open_detected E s hv (corrupted_data_fails_check E hc s.files f hf n hs orig ho hne) c
+  ⟨h.1, h.2.2⟩
+
+/-! ### the consumers are the programs the source executes -/
+
+theorem openNewest_is_program (E : XExt) (s : Store) :
+    openNewest E s = ((runProgram E openProgram s).s,
+      if (runProgram E openProgram s).failed then none else (runProgram E openProgram s).out) := by
+  simp only [openNewest, runProgram, openProgram, List.foldl, stepRun]
+  cases h1 : (ensureVerified E s).2 <;> simp [h1]
+  cases h2 : scanOk E (ensureVerified E s).1.files <;> simp [h2]
+
+theorem reap_is_program (E : XExt) (s : Store) :
+    reap E s = ((runProgram E reapProgram s).s,
+      if (runProgram E reapProgram s).failed then .err else (runProgram E reapProgram s).res) := by
+  simp only [reap, runProgram, reapProgram, List.foldl, stepRun]
+  cases h1 : (ensureVerified E s).2 <;> simp [h1]
+  cases h2 : scanOk E (ensureVerified E s).1.files <;> simp [h2]
+  cases h3 : chainFiles (ensureVerified E s).1 with
+  | nil => by_cases h4 : (ensureVerified E s).1.files = [] <;> simp [h3, h4]
+  | cons db wals =>
+    simp only [h3]
+    by_cases h5 : snapCount (ensureVerified E s).1.files ≤ 1
+    · simp [h5, h3]
+    · by_cases h6 : wals = []
+      · simp [h5, h6, h3]
+      · by_cases hc : fileCrcOk E db = false ∨ ∃ x, x ∈ wals ∧ fileCrcOk E x = false <;>
+          simp [h5, h6, h3, hc]
+
+open RqModel.Gen.SnapVerify in
+/-- **call_order_fact.** In the CURRENT source, `Store.Open` calls `ensureVerified`, then the
+catalog scan, then builds the streamer; `reapInternal` calls `ensureVerified`, the scan, the
+input check and only then plans the checkpoint; `EnsureVerify` calls `ensureVerified`;
+`ensureVerified` runs `checkCRCs` under the `sync.Once`; the stream header starts from the
+recorded CRC; the startup verification is guarded by "restore on start" and precedes
+`raft.NewRaft`. The step lists are the programs the model interprets. -/
+theorem call_order_fact :
+    openCalls.filterMap stepOfCall = openProgram ∧
+    (reapCalls.filterMap stepOfCall) = reapProgram ∧
+    reapCalls.take 2 = ["FileExists", "executeReapPlan"] ∧
+    ensureVerifyCalls.filterMap stepOfCall = ensureProgram ∧
+    ensureVerifiedCalls = ["Do", "checkCRCs", "fatalFn"] ∧
+    checkCRCsCalls = ["Scan", "NewCRCChecker", "Add", "Add", "Check"] ∧
+    headerUsesRecordedCRC = true ∧
+    startupVerifyGuard = "!raftConfig.NoSnapshotRestoreOnStart" ∧
+    startupVerifyBeforeNewRaft = some true := by decide
+
+/-! ### the receiver of C12 is the `Restore` of C10 -/
+
+/-- the C10 externals that go with the C12 ones, for a given header decoder -/
+def toExt (X : XExt) (decode : Bytes → Option SnapHeader) : Ext :=
+  { decode := decode, crc := X.crc, validDb := X.validDb, validWal := X.validWal }
+
+theorem restoreWals_files (E : Ext) : ∀ (hs : List FileHdr) (ws : List Bytes),
+    SizesMatch ws hs →
+    (restoreWals E hs ws.flatten = .ok (ws, []) ↔ ∀ p ∈ ws.zip hs, E.crc p.1 = p.2.crc) := by
+  intro hs ws hsz
+  constructor
+  · intro h
+    exact (restoreWals_sound E hs _ ws [] h).2.2
+  · intro h
+    have := restoreWals_complete E hs ws [] hsz h
+    simpa using this
+
+/-- **receiver_is_restore.** For the stream `Open` produces (framing of the chain files under a
+header that announces their current sizes and the given CRCs), C10's `restore` succeeds
+exactly when C12's `receiverAccepts` says so. -/
+theorem receiver_is_restore (X : XExt) (decode : Bytes → Option SnapHeader) (hb db : Bytes) (wals : List Bytes)
+    (dbh : FileHdr) (walhs : List FileHdr) (hl : hb.length < 4294967296)
+    (hd : decode hb = some ⟨1, .full (some dbh) walhs⟩)
+    (hsz : db.length = dbh.size) (hws : SizesMatch wals walhs) :
+    restore (toExt X decode) (frame hb (db :: wals)) = .ok db wals ↔
+      receiverAccepts X (dbh :: walhs) (db :: wals) = true := by
+  constructor
+  · intro h
+    obtain ⟨pre, hb', dbh', walhs', hs, hp, hbn, hdec, hdb, hcrc, hwl, hwc⟩ :=
+      C10.restore_exact (toExt X decode) _ db wals h
+    -- the stream is the framing: same prefix, hence same header bytes
+    have hfr : frame hb (db :: wals) = enc32 hb.length ++ (hb ++ (db ++ wals.flatten)) := by
+      simp [frame, List.append_assoc]
+    have hpre : pre = enc32 hb.length := by
+      have a : (frame hb (db :: wals)).take 4 = pre := by rw [hs]; simp [hp]
+      have b : (frame hb (db :: wals)).take 4 = enc32 hb.length := by rw [hfr]; simp [enc32]
+      rw [← a, b]
+    have hlen : hb'.length = hb.length := by
+      rw [← hbn, hpre]
+      have := be32_enc32_append' hb.length [] hl
+      simpa using this
+    have hhb : hb' = hb := by
+      have a : ((frame hb (db :: wals)).drop 4).take hb.length = hb' := by
+        rw [hs]; simp [hp, hlen]
+      have b : ((frame hb (db :: wals)).drop 4).take hb.length = hb := by
+        rw [hfr]; simp [enc32]
+      rw [← a, b]
+    rw [hhb] at hdec
+    have hdec' : decode hb = some ⟨1, .full (some dbh') walhs'⟩ := hdec
+    rw [hd] at hdec'
+    have hpay := congrArg SnapHeader.payload (Option.some.inj hdec')
+    simp only [Payload.full.injEq, Option.some.injEq] at hpay
+    obtain ⟨rfl, rfl⟩ := hpay
+    simp only [receiverAccepts, List.zip_cons_cons, List.all_cons, Bool.and_eq_true, beq_iff_eq,
+      List.all_eq_true]
+    refine ⟨by simpa [toExt] using hcrc, ?_⟩
+    intro p hpm
+    obtain ⟨i, hi, hpi⟩ := List.mem_iff_getElem.1 hpm
+    have hi1 : i < wals.length := by simp at hi; omega
+    have hi2 : i < walhs.length := by simp at hi; omega
+    have := (hwc i hi1 hi2).2
+    simp only [List.getElem_zip] at hpi
+    rw [← hpi]; simpa [toExt] using this
+  · intro h
+    simp only [receiverAccepts, List.zip_cons_cons, List.all_cons, Bool.and_eq_true, beq_iff_eq,
+      List.all_eq_true] at h
+    exact frame_restores_gen (toExt X decode) hb db wals dbh walhs hl hd hsz h.1 hws
+      (fun p hp => by have := h.2 p hp; simpa [toExt] using this)
+
+/-! ### corruption that arises later -/
 
 theorem accepts_iff (E : XExt) : ∀ (fs : List DataFile),
     receiverAccepts E (fs.map (headerOf E)) (fs.map (·.content)) = true →
@@ -135,6 +295,37 @@ theorem open_header_is_recorded (E : XExt) (s : Store) (hdrs : List FileHdr) (fi
   simp only [Option.some.injEq, Prod.mk.injEq] at ho
   obtain ⟨rfl, rfl⟩ := ho
   simp [chainFiles, hfiles]
+
+theorem sizesMatch_headerOf (E : XExt) : ∀ fs : List DataFile,
+    SizesMatch (fs.map (·.content)) (fs.map (headerOf E)) := by
+  intro fs
+  induction fs with
+  | nil => exact .nil
+  | cons f t ih => exact .cons rfl ih
+
+/-- **late_corruption_never_restored.** The same fact stated against C10's `restore`: whatever
+happened to the store, if `Open` yields a stream — the framing of the chain files under a
+header `hb` that protobuf decodes to the sizes and RECORDED checksums — and C10's `Restore`
+accepts that stream, then every transferred file with a recorded CRC is byte for byte the
+content the record was computed from. -/
+theorem late_corruption_never_restored (X : XExt) (hc : NoCollision X) (s : Store)
+    (decode : Bytes → Option SnapHeader) (hb : Bytes) (hl : hb.length < 4294967296)
+    (dbf : DataFile) (walfs : List DataFile) (hchain : chainFiles s = dbf :: walfs)
+    (ho : (openNewest X s).2.isSome = true)
+    (hd : decode hb = some ⟨1, .full (some (headerOf X dbf)) (walfs.map (headerOf X))⟩)
+    (hr : restore (toExt X decode) (frame hb (dbf.content :: walfs.map (·.content))) =
+      .ok dbf.content (walfs.map (·.content))) :
+    ∀ f ∈ chainFiles s, ∀ n, f.side = .crc n → ∀ orig, X.crc orig = n → f.content = orig := by
+  have hacc := (receiver_is_restore X decode hb dbf.content (walfs.map (·.content)) (headerOf X dbf)
+    (walfs.map (headerOf X)) hl hd rfl (sizesMatch_headerOf X walfs)).1 hr
+  cases hopen : (openNewest X s).2 with
+  | none => rw [hopen] at ho; cases ho
+  | some v =>
+    obtain ⟨hdrs, files⟩ := v
+    have hof := open_header_is_recorded X s hdrs files hopen
+    apply late_corruption_never_installed X hc s hdrs files hopen
+    rw [hof.1, hof.2, hchain]
+    simpa using hacc
 
 /-- **reap_never_launders.** A reap that consolidates WAL files (and therefore writes a fresh
 checksum) only does so after every file it consumes matched its recorded checksum at that
@@ -221,7 +412,7 @@ theorem reap_single_snapshot_noop (E : XExt) (s : Store) (h1 : snapCount s.files
   split
   · simp
   split
-  · simp
+  · split <;> simp
   · rw [hfiles]; simp [h1]
 
 /-! ### non-vacuity -/
